@@ -1379,6 +1379,36 @@ func ruleEmptySeries(p *core.Program) []core.Obligation {
 						grown = true
 					}
 				})
+				// ... or by a method of the same type that this function calls afterwards (the look-up-or-append
+				// of an output series moved into a helper)
+				if !grown {
+					core.EachInstr(fn, func(b2 *ssa.BasicBlock, i2 int, y ssa.Instruction) {
+						c, ok := y.(*ssa.Call)
+						if !ok || grown {
+							return
+						}
+						if !(core.Reaches(x.Block(), c.Block()) || (c.Block() == x.Block() && core.InstrIndex(c) > core.InstrIndex(x))) {
+							return
+						}
+						callee := c.Call.StaticCallee()
+						if callee == nil || callee.Blocks == nil || recvNamed(callee) != recv {
+							return
+						}
+						core.EachInstr(callee, func(_ *ssa.BasicBlock, _ int, z ssa.Instruction) {
+							st3, ok := z.(*ssa.Store)
+							if !ok {
+								return
+							}
+							if n3, f3, _, ok := core.FieldRef(st3.Addr); ok && n3 == recv && f3 == f {
+								if ac, isCall := st3.Val.(*ssa.Call); isCall {
+									if bi, ok := ac.Call.Value.(*ssa.Builtin); ok && bi.Name() == "append" {
+										grown = true
+									}
+								}
+							}
+						})
+					})
+				}
 				if emptyLiteral(x.Val) && !grown {
 					obs = append(obs, core.Ob(rule, key, p.Pos(x.Pos()), core.FuncName(fn), core.Violated, "the announced series list is set to a constant empty list on this path while the operator still emits samples on it"))
 				} else {
